@@ -42,6 +42,15 @@ def main():
             return suite_lin.run(a.prop, a.tier, seed, a.replay)
         print("unknown property", a.prop)
         return 2
+    except C.LibraryRaised as e:
+        # the implementation raised where no oracle of the harness expects an exception: the correspondence is broken
+        v = C.Verdict(a.prop, a.tier, seed)
+        lines = [l for l in e.stderr.strip().splitlines() if l.strip()]
+        v.coverage.update({"evaluations": 0, "distinct_nontrivial": 0, "rule": "a worker process died of an exception raised inside the library",
+                           "worker_died": {"argv": e.argv[-8:], "exception": lines[-1][:300] if lines else ""}})
+        v.broken("correspondence: the implementation raised an exception no oracle of the harness expects (%s)" % (lines[-1][:160] if lines else "?"),
+                 {"suite": "worker", "worker_argv": e.argv, "traceback_tail": lines[-25:]})
+        return v.finish()
     except C.Infra as e:
         print("INFRA-ERROR:", str(e)[:3000])
         return 2
